@@ -405,19 +405,21 @@ def _fields(acc, ann, meta, cache):
     for base in ("Schema", "DataClass"):
         for fpol in (None, "exclude", "preserve", "throw"):
             for cpol in POLICIES:
-                for variant in ("required", "optional", "default", "modereq", "modeopt"):
+                for variant in ("required", "optional", "default", "modereq", "modeopt", "dep"):
                     if fpol == "exclude" and variant == "required":
                         # documented: on_error='exclude' cannot be used on a required field; the class-level policy can
                         pass
                     # modereq / modeopt: required only in mode 'w' and owning a default; the class is in mode 'w' / 'r'
                     fld = {"required": "Field({oe})", "optional": "Field(required=False{oe2})",
                            "default": "Field(default=7{oe2})", "modereq": "Field(required='w', default=7{oe2})",
-                           "modeopt": "Field(required='w', default=7{oe2})"}[variant]
+                           "modeopt": "Field(required='w', default=7{oe2})",
+                           # dep: the field depends on c, which is never given -- only a value that stays demands it
+                           "dep": "Field(required=False, dependencies=['c']{oe2})"}[variant]
                     mode = {"modereq": "mode='w', ", "modeopt": "mode='r', "}.get(variant, "")
                     oe = f"on_error={fpol!r}" if fpol else ""
                     fld = fld.format(oe=oe, oe2=(", " + oe) if oe else "")
                     src = (f"class S({base}):\n    __options__ = Options({mode}invalid_values={cpol!r})\n"
-                           f"    a: {lexpr} = {fld}\n    b: int = 0\n")
+                           f"    a: {lexpr} = {fld}\n    b: int = 0\n" + ("    c: int = Field(required=False)\n" if variant == "dep" else ""))
                     try:
                         env = _class(src)
                     except Exception as e:
@@ -449,6 +451,10 @@ def _fields(acc, ann, meta, cache):
                             # field b has a default: under a class-level exclude it falls back to it, under preserve it keeps 'x'
                             b_err = b_bad and cpol == "throw"
                             a_err = (not ok) and (eff == "throw" or (eff == "exclude" and variant in ("required", "modereq")))
+                            if variant == "dep":
+                                # a value that is kept (valid, or put back by preserve) demands the absent dependency;
+                                # an excluded one does not
+                                a_err = ok or eff in ("throw", "preserve")
                             if (st == "err") != (a_err or b_err):
                                 _viol(acc, "field-verdict", ann, tag, xexpr, f"{'rejected' if st == 'err' else 'accepted'}: a "
                                       f"{'offends' if not ok else 'is valid'}, b {'offends' if b_bad else 'is valid'}", base)
